@@ -977,6 +977,15 @@ impl<T: Transport, Env: UtpEnvironment> VirtualSocket<T, Env> {
                 // too large segment. So ignore the retransmit timer, pretend it didn't fire.
                 self.timers.retransmit.turn_off("MTU probe is not real RTO");
                 self.rto_retransmissions = 0;
+                // Other segments may still be in flight: they need the timer.
+                if !self.user_tx_segments.is_empty() {
+                    self.timers.retransmit.arm(
+                        self.this_poll.now,
+                        self.rtte.retransmission_timeout(),
+                        true,
+                        "MTU probe expired, other data outstanding",
+                    );
+                }
 
                 // TODO: do we need to IF here? Maybe min instead?
                 if self.last_sent_seq_nr > rewind_to {
